@@ -518,6 +518,7 @@ class Crate:
         self.impls = raw["impls"]
         self.n_bodies = raw["n_bodies"]
         self.n_blocks = raw["n_blocks"]
+        self.consts = {c["def"]: c["thir"] for c in raw.get("consts", [])}
 
 
 class Facts:
@@ -535,7 +536,10 @@ class Facts:
         self.fn_by_def = {}
         self.adts = {}
         self.impls = []
+        self.consts = {}
         for c in self.crates.values():
+            c.facts = self
+            self.consts.update(c.consts)
             for f in c.fns:
                 # lib wins over bin for duplicated names
                 if f.def_ not in self.fn_by_def or c.crate_types[0] != "executable":
@@ -554,6 +558,13 @@ class Facts:
 
     def find_fn(self, def_path):
         return self.fn_by_def.get(def_path)
+
+    def const_init(self, def_path):
+        """THIR of the initialiser of a const / static item of the workspace (None when unknown)"""
+        t = self.consts.get(def_path)
+        if isinstance(t, dict) and isinstance(t.get("root"), dict):
+            return t["root"]
+        return None
 
     def fns_matching(self, regex, crate=None):
         r = re.compile(regex)
